@@ -187,7 +187,12 @@ def gen_knn_case(rng, n_ops=60, pokes=False):
             ops.append("bulk_load docs=%s" % "/".join(docs))
         elif op == "poke_hot":
             alt = vbits(knn_vec(rng, dim, metric)[0])
-            ops.append("poke_hot id=%d v=%s m=- ver=@cur-1 dig=@v alt=%s" % (i, alt, alt))
+            if rng.random() < 0.4:
+                # a mirror holding ANOTHER vector under the canonical token (what two racing writers of one id can leave
+                # behind): only the payload digest check tells it from the canonical copy
+                ops.append("poke_hot id=%d v=%s m=- ver=@cur dig=@cur alt=%s" % (i, alt, alt))
+            else:
+                ops.append("poke_hot id=%d v=%s m=- ver=@cur-1 dig=@v alt=%s" % (i, alt, alt))
         else:
             if pool and rng.random() < 0.7:
                 base = rng.choice(pool)
